@@ -74,6 +74,9 @@ func (w *World) Block(id int) []byte {
 			b[i] = specials[w.rng.Intn(len(specials))]
 		}
 	}
+	if len(w.first) >= 256 {
+		panic("absx: more than 256 distinct blocks in one world (driver bug: wrap the block counter)")
+	}
 	for {
 		f := byte(w.rng.Intn(256))
 		if _, used := w.first[f]; !used {
